@@ -333,3 +333,86 @@ def replay_ci_method(p):
         return {"reproduced": o[0] != "value", "expected": "an interval", "observed": show(o)}
     ok = o[0] == "raise" and o[1] == "NotImplementedError"
     return {"reproduced": not ok, "expected": "NotImplementedError", "observed": show(o)}
+
+
+@register("lifecycle")
+def replay_lifecycle(p):
+    """Differential run of operation sequences on real evaluators against the model
+    'each evaluator behaves like a fresh one built from the last text it accepted'."""
+    from pyab_experiment.experiment_evaluator import ExperimentEvaluator
+    A = 'def exp_a { splitters: uid return "a1" weighted 1, "a2" weighted 1, "a3" weighted 1 }'
+    B = 'def exp_b { splitters: uid return "b1" weighted 1, "b2" weighted 3 }'
+    A2 = 'def exp_a { splitters: uid return "c1" weighted 5, "c2" weighted 1 }'
+    BAD_LEX = 'def exp_c { splitters: uid return "x" weighted ; 1 }'
+    BAD_SYN = 'def exp_d { splitters uid return "x" weighted 1 }'
+    BAD_SEM = 'def exp_e { splitters: uid if uid == 1 { return "x" weighted 1 } else { } }'
+    ids = ["u%d" % i for i in range(40)]
+
+    def fresh_results(text):
+        ev = ExperimentEvaluator(text)
+        return [ev(uid=i) for i in ids]
+
+    def is_valid(text):
+        try:
+            import contextlib, io
+            with contextlib.redirect_stdout(io.StringIO()), contextlib.redirect_stderr(io.StringIO()):
+                ExperimentEvaluator(text)
+            return True
+        except Exception:
+            return False
+    seqs = {
+        "repeat": [("new", 0, A), ("recompile", 0, BAD_SYN), ("recompile", 0, BAD_SYN), ("recompile", 0, BAD_SYN), ("call", 0)],
+        "atomic": [("new", 0, A), ("recompile", 0, BAD_LEX), ("call", 0), ("recompile", 0, BAD_SEM), ("call", 0)],
+        "noop": [("new", 0, A), ("recompile", 0, A), ("call", 0), ("recompile", 0, B), ("recompile", 0, B), ("call", 0)],
+        "ok": [("new", 0, A), ("recompile", 0, B), ("call", 0), ("recompile", 0, A2), ("call", 0), ("recompile", 0, A), ("call", 0)],
+        "stale": [("new", 0, A), ("recompile", 0, A2), ("call", 0), ("recompile", 0, A), ("call", 0)],
+        "isolation": [("new", 0, A), ("new", 1, B), ("call", 0), ("call", 1), ("recompile", 1, A2), ("call", 0), ("call", 1),
+                      ("recompile", 0, BAD_SYN), ("call", 1), ("call", 0)],
+        "swallow": [("new", 0, BAD_SYN)],
+        "init": [("new", 0, BAD_LEX)],
+        "call": [("new", 0, A), ("call", 0), ("call", 0)],
+    }
+    order = [p.get("scenario")] + [k for k in seqs if k != p.get("scenario")]
+    problems = []
+    for name in order:
+        if name not in seqs:
+            continue
+        evs, accepted = {}, {}
+        for op in seqs[name]:
+            kind, who = op[0], op[1]
+            if kind == "new":
+                text = op[2]
+                o = outcome_of(lambda: ExperimentEvaluator(text))
+                valid = is_valid(text) if False else None
+                if o[0] == "value":
+                    evs[who] = o[1]
+                    accepted[who] = text
+                    if text in (BAD_LEX, BAD_SYN, BAD_SEM):
+                        problems.append("%s: construction from invalid text succeeded" % name)
+                else:
+                    if text not in (BAD_LEX, BAD_SYN, BAD_SEM):
+                        problems.append("%s: construction from valid text raised %s" % (name, o[1]))
+            elif kind == "recompile":
+                text = op[2]
+                if who not in evs:
+                    continue
+                o = outcome_of(lambda: evs[who].recompile(text))
+                if text in (BAD_LEX, BAD_SYN, BAD_SEM):
+                    if o[0] != "raise":
+                        problems.append("%s: recompile(invalid text) returned without raising" % name)
+                else:
+                    if o[0] == "raise":
+                        problems.append("%s: recompile(valid text) raised %s" % (name, o[1]))
+                    else:
+                        accepted[who] = text
+            else:
+                if who not in evs:
+                    continue
+                got = [outcome_of(lambda i=i: evs[who](uid=i))[1] for i in ids]
+                want = fresh_results(accepted[who])
+                if got != want:
+                    problems.append("%s: evaluator %d does not behave like a fresh evaluator of its last accepted text" % (name, who))
+        if problems:
+            break
+    return {"reproduced": bool(problems), "expected": "every evaluator behaves like a fresh one built from the last text it accepted; "
+            "invalid text always raises", "observed": "; ".join(problems[:3]) or "all sequences conform"}
